@@ -143,10 +143,20 @@ theorem range_flatMap_getD {α} (l : List (List Rat)) (F : List Rat → List α)
     simp only [List.getD_cons_zero, List.flatMap_cons]
     congr 1
 
-/-- a full-model simulated dataset (index-independent model matrix, no weight) -/
+theorem zipWith_mul_flatMap {α} (l : List α) (f g : α → Vec) (h : ∀ x ∈ l, (f x).length = (g x).length) :
+    List.zipWith (· * ·) (l.flatMap f) (l.flatMap g) =
+      l.flatMap (fun x => List.zipWith (· * ·) (f x) (g x)) := by
+  induction l with
+  | nil => simp
+  | cons a l ih =>
+    simp only [List.flatMap_cons]
+    rw [List.zipWith_append (h a List.mem_cons_self), ih (fun x hx => h x (List.mem_cons_of_mem _ hx))]
+
+/-- a full-model simulated dataset (index-independent model matrix; a weight, if any, has one row per
+    model-axis point) -/
 structure SimFullOK (sd : SimDataset) (lm gm : LMat) (m g : Mat) : Prop where
   hasGlobal : sd.inp.gmcs ≠ []
-  noWeight : sd.weight = none
+  weightShape : ∀ w, sd.weight = some w → w.length = sd.inp.nModel
   matrix : datasetMatrix sd.inp.mcs = some lm
   gmatrix : datasetMatrix sd.inp.gmcs = some gm
   body : lm.body = .d2 m
@@ -163,59 +173,83 @@ theorem sliceM_d2 (lm : LMat) (m : Mat) (hb : lm.body = .d2 m) (nGlobal i : Nat)
     sliceM lm nGlobal i = m := by
   simp [sliceM, slices, hb, List.getD_eq_getElem?_getD, List.getElem?_replicate_of_lt hi]
 
-/-- **the flattened simulated data are the Kronecker matrix applied to the label pairing** -/
+/-- the simulated data of a full model -/
+theorem fullModel_data (sd : SimDataset) (lm gm : LMat) (m g : Mat) (ok : SimFullOK sd lm gm m g)
+    (data : Mat) (hsim : noiseless sd.inp = .ok data) :
+    data = C03.ofColumns sd.inp.nModel (simCols lm sd.inp.nGlobal gm.labels g) := by
+  unfold noiseless at hsim
+  have hne : sd.inp.gmcs.isEmpty = false := by
+    cases hgm : sd.inp.gmcs with
+    | nil => exact absurd hgm ok.hasGlobal
+    | cons _ _ => rfl
+  simp only [hne, Bool.not_false, if_true, simulateFullModel, ok.gmatrix, globalClpTable, ok.gbody,
+    simulateFromClp, ok.matrix] at hsim
+  split at hsim
+  · cases hsim
+  · rename_i cols hc
+    cases hsim
+    rw [(simulateColumns_ok lm _ gm.labels g cols hc).1]
+
+/-- **the unweighted flattened simulated data are the Kronecker matrix applied to the label pairing** -/
+theorem fullModel_consistent_raw (sd : SimDataset) (lm gm : LMat) (m g : Mat) (ok : SimFullOK sd lm gm m g)
+    (data : Mat) (hsim : noiseless sd.inp = .ok data) :
+    (List.range sd.inp.nGlobal).flatMap (fun i => col data i) =
+      mulVec (g.flatMap (fun grow => kronRow grow m)) (pairing gm.labels lm.labels) := by
+  have hdata := fullModel_data sd lm gm m g ok data hsim
+  have hrhs : mulVec (g.flatMap (fun grow => kronRow grow m)) (pairing gm.labels lm.labels) =
+      g.flatMap (fun grow => mulVec m (lm.labels.map (fun l => grow.getD (gm.labels.idxOf l) 0))) := by
+    simp only [mulVec, List.map_flatMap]
+    apply List.flatMap_congr
+    intro grow hgrow
+    have := kronRow_mulVec grow m gm.labels lm.labels (ok.gWidth grow hgrow) ok.mWidth ok.glabels
+    simpa [mulVec] using this
+  rw [hrhs, ← ok.gRows, ← range_flatMap_getD g]
+  apply List.flatMap_congr
+  intro i hi
+  have hi' : i < sd.inp.nGlobal := by rw [← ok.gRows]; simpa using hi
+  have hlen : i < (simCols lm sd.inp.nGlobal gm.labels g).length := by simpa [simCols] using hi'
+  rw [hdata, col_ofColumns _ _ i hlen (by
+    rw [simCols_getElem _ _ _ _ _ hi', mulVec_length, sliceM_d2 lm m ok.body _ _ hi']; exact ok.mRows)]
+  rw [simCols_getElem _ _ _ _ _ hi', sliceM_d2 lm m ok.body _ _ hi']
+  rfl
+
+/-- **the flattened (weighted) simulated data are the (weighted) Kronecker matrix applied to the label
+    pairing** -/
 theorem fullModel_consistent (sd : SimDataset) (lm gm : LMat) (m g : Mat) (ok : SimFullOK sd lm gm m g)
     (data : Mat) (hsim : noiseless sd.inp = .ok data) (full : Mat) (flat : Vec)
     (h : fullModelProblem (sd.toDataset data) = some (full, flat)) :
     flat = mulVec full (pairing gm.labels lm.labels) ∧
     ∀ r ∈ full, r.length = gm.labels.length * lm.labels.length := by
-  -- the simulated data
-  have hdata : data = C03.ofColumns sd.inp.nModel (simCols lm sd.inp.nGlobal gm.labels g) := by
-    unfold noiseless at hsim
-    have hne : sd.inp.gmcs.isEmpty = false := by
-      cases hgm : sd.inp.gmcs with
-      | nil => exact absurd hgm ok.hasGlobal
-      | cons _ _ => rfl
-    simp only [hne, Bool.not_false, if_true, simulateFullModel, ok.gmatrix, globalClpTable, ok.gbody,
-      simulateFromClp, ok.matrix] at hsim
-    split at hsim
-    · cases hsim
-    · rename_i cols hc
-      cases hsim
-      rw [(simulateColumns_ok lm _ gm.labels g cols hc).1]
+  have hraw := fullModel_consistent_raw sd lm gm m g ok data hsim
+  have hdl : data.length = sd.inp.nModel := by
+    rw [fullModel_data sd lm gm m g ok data hsim]; exact C03.ofColumns_length _ _
   have hng : (sd.toDataset data).nGlobal = sd.inp.nGlobal := by
     simp [Dataset.nGlobal, SimDataset.toDataset, ok.axis]
-  unfold fullModelProblem at h
-  have hm1 : datasetMatrix (sd.toDataset data).mcs = some lm := ok.matrix
-  have hm2 : datasetMatrix (sd.toDataset data).gmcs = some gm := ok.gmatrix
-  have hw : (sd.toDataset data).weight = none := ok.noWeight
-  simp only [hm1, hm2, ok.body, ok.gbody, hw, Option.some.injEq, Prod.mk.injEq, Dataset.weightedData] at h
-  obtain ⟨hfull, hflat⟩ := h
-  subst hfull
-  subst hflat
-  constructor
-  · -- right-hand side, block by block
-    have hrhs : mulVec (g.flatMap (fun grow => kronRow grow m)) (pairing gm.labels lm.labels) =
-        g.flatMap (fun grow => mulVec m (lm.labels.map (fun l => grow.getD (gm.labels.idxOf l) 0))) := by
-      simp only [mulVec, List.map_flatMap]
-      apply List.flatMap_congr
-      intro grow hgrow
-      have := kronRow_mulVec grow m gm.labels lm.labels (ok.gWidth grow hgrow) ok.mWidth ok.glabels
-      simpa [mulVec] using this
-    rw [hrhs, hng, ← ok.gRows, ← range_flatMap_getD g]
-    apply List.flatMap_congr
-    intro i hi
-    have hi' : i < sd.inp.nGlobal := by rw [← ok.gRows]; simpa using hi
-    have hlen : i < (simCols lm sd.inp.nGlobal gm.labels g).length := by simpa [simCols] using hi'
-    have hd : (sd.toDataset data).data = data := rfl
-    rw [hd, hdata, col_ofColumns _ _ i hlen (by
-      rw [simCols_getElem _ _ _ _ _ hi', mulVec_length, sliceM_d2 lm m ok.body _ _ hi']; exact ok.mRows)]
-    rw [simCols_getElem _ _ _ _ _ hi', sliceM_d2 lm m ok.body _ _ hi']
-    rfl
-  · intro r hr
+  have hwidth : ∀ r ∈ g.flatMap (fun grow => kronRow grow m), r.length = gm.labels.length * lm.labels.length := by
+    intro r hr
     simp only [List.mem_flatMap] at hr
     obtain ⟨grow, hgrow, hr⟩ := hr
     exact kronRow_width grow m _ _ (ok.gWidth grow hgrow) ok.mWidth r hr
+  unfold fullModelProblem at h
+  have hm1 : datasetMatrix (sd.toDataset data).mcs = some lm := ok.matrix
+  have hm2 : datasetMatrix (sd.toDataset data).gmcs = some gm := ok.gmatrix
+  have hwt : (sd.toDataset data).weight = sd.weight := rfl
+  have hd : (sd.toDataset data).data = data := rfl
+  simp only [hm1, hm2, ok.body, ok.gbody, hwt, hng, Option.some.injEq, Prod.mk.injEq, Dataset.weightedData, hd] at h
+  obtain ⟨hfull, hflat⟩ := h
+  subst hfull
+  subst hflat
+  cases hw : sd.weight with
+  | none => exact ⟨hraw, hwidth⟩
+  | some w =>
+    simp only
+    refine ⟨?_, rows_weightRows_width _ _ _ hwidth⟩
+    rw [mulVec_weightRows, ← hraw, zipWith_mul_flatMap _ _ _ (by
+      intro i _
+      rw [Length.len_col, Length.len_col, hdl, ok.weightShape w hw])]
+    apply List.flatMap_congr
+    intro i _
+    exact col_hadamard data w i
 
 /-- **a full-model simulated dataset contributes a zero residual block** (VP and NNLS — the pairing
     vector is non-negative) -/
